@@ -65,6 +65,9 @@ fn judge(out: &Outcome) -> Result<(SideWire, SideWire), Violation> {
     if let Some(c) = n.contract.first() {
         return Err(Violation::new("C14.transport_contract", format!("h3 misused the transport: {c}")));
     }
+    if let Some((side, id)) = out.untyped_uni_at_quiescence.first() {
+        return Err(Violation::new("C14.uni_stream_without_type", format!("unidirectional stream {id} had been opened by the {} and carried no byte when everything had come to rest (every task parked, no write held back by the transport, connection up): it has no stream type", if *side == CLIENT { "client" } else { "server" })).fact("side", if *side == CLIENT { "client" } else { "server" }));
+    }
     let cw = wire::check_side(&n, CLIENT, false).map_err(|(r, d)| Violation::new(&format!("C14.{r}"), d).fact("side", "client"))?;
     let sw = wire::check_side(&n, SERVER, false).map_err(|(r, d)| Violation::new(&format!("C14.{r}"), d).fact("side", "server"))?;
     // DATA payloads concatenate to exactly what was passed to send_data; HEADERS decode to what was submitted
